@@ -14,6 +14,22 @@ static mjModel* verif_scene(int nbody, int nlink, long long memory, int cone_ell
   cluster %= 10;
   mjSpec* s = mj_makeSpec();
   if (memory >= 0) s->memory = (mjtSize)memory;
+  // cone_elliptic = cone + 10 * option bits: 1 sparse Jacobian, 2 dense Jacobian (neither: auto), 4 PGS solver,
+  // 8 CG solver (neither: Newton), 16 noslip iterations, 32 implicitfast, 64 implicit, 128 RK4 integrator,
+  // 256 diagexact, 512 multiccd disabled, 1024 sleep
+  int optbits = cone_elliptic / 10;
+  cone_elliptic %= 10;
+  if (optbits & 1) s->option.jacobian = mjJAC_SPARSE;
+  if (optbits & 2) s->option.jacobian = mjJAC_DENSE;
+  if (optbits & 4) s->option.solver = mjSOL_PGS;
+  if (optbits & 8) s->option.solver = mjSOL_CG;
+  if (optbits & 16) s->option.noslip_iterations = 3;
+  if (optbits & 32) s->option.integrator = mjINT_IMPLICITFAST;
+  if (optbits & 64) s->option.integrator = mjINT_IMPLICIT;
+  if (optbits & 128) s->option.integrator = mjINT_RK4;
+  if (optbits & 256) s->option.enableflags |= mjENBL_DIAGEXACT;
+  if (optbits & 512) s->option.disableflags |= mjDSBL_MULTICCD;
+  if (optbits & 1024) s->option.enableflags |= mjENBL_SLEEP;
   s->option.cone = cone_elliptic ? mjCONE_ELLIPTIC : mjCONE_PYRAMIDAL;
   if (islands) s->option.disableflags &= ~mjDSBL_ISLAND; else s->option.disableflags |= mjDSBL_ISLAND;
   mjsBody* world = mjs_findBody(s, "world");
